@@ -132,7 +132,7 @@ func (l *S3Location) Remove(paths ...string) error {
 			Key:    &key,
 		})
 		if err != nil {
-			errors.Join(compositeErr, fmt.Errorf("failed to delete object %s: %w", path, err))
+			compositeErr = errors.Join(compositeErr, fmt.Errorf("failed to delete object %s: %w", path, err))
 		}
 	}
 
